@@ -319,7 +319,7 @@ def initial_state(problem) -> Dict:
 
 
 def freeze(state) -> Tuple:
-    return tuple(sorted(((k, ("U" if v is UNDEF else v)) for k, v in state.items()), key=repr))
+    return tuple(sorted(((k, ("U" if v is UNDEF else v)) for k, v in state.items()), key=lambda kv: repr(kv[0])))
 
 
 class Inapplicable(Exception):
